@@ -36,6 +36,9 @@ func (valdec sliceDecoder) Decode(dec *Decoder, p interface{}, tag byte) {
 		setSliceHeader(reflect2.PtrOf(p), valdec.empty, 0)
 	case TagList:
 		count := dec.ReadCount()
+		if !dec.enter() {
+			count = 0
+		}
 		slice := reflect2.PtrOf(p)
 		n := dec.prealloc(count)
 		valdec.t.UnsafeGrow(slice, n)
@@ -53,7 +56,7 @@ func (valdec sliceDecoder) Decode(dec *Decoder, p interface{}, tag byte) {
 			}
 			valdec.decodeElem(dec, valdec.et, valdec.t.UnsafeGetIndex(slice, i))
 		}
-		dec.Skip()
+		dec.leave()
 	default:
 		dec.defaultDecode(valdec.t.Type1(), p, tag)
 	}
